@@ -34,6 +34,7 @@ def diff(a, b, path='') -> Optional[str]:
 
 
 def documents(ctx: common.Ctx, n: int, *, auto_claim: Optional[bool] = None):
+    sd.LF_PINNED = True          # this generator draws (and records) the load factor itself
     for _ in range(n):
         lf = ctx.rng.choice([3, 6, 1000, 1000])
         sd.set_load_factor(lf)
@@ -45,6 +46,7 @@ def documents(ctx: common.Ctx, n: int, *, auto_claim: Optional[bool] = None):
             continue
         yield text, ac, lf, f
     sd.set_load_factor(1000)
+    sd.LF_PINNED = False
 
 
 def gen_edits(r: random.Random, f, n_edits: int, p_focus: float):
